@@ -8,6 +8,7 @@ import (
 	"sort"
 	"strings"
 	"sync"
+	"time"
 
 	"github.com/influxdata/kapacitor/alert"
 	alertservice "github.com/influxdata/kapacitor/services/alert"
@@ -116,8 +117,13 @@ func (h *hooked) Update(f func(storage.Tx) error) error {
 
 // ---- dumps (sorted, canonical) ----
 
-func esTok(id string, level alert.Level, unixNano int64) string {
-	return fmt.Sprintf("%s|%d|%d", kit.Esc(id), int(level), unixNano)
+// esTok renders one event state: id|level|time, and |duration|message|details when one of the three is not empty
+// (the fields EventState's JSON omits when empty).
+func esTok(id string, level alert.Level, unixNano int64, dur time.Duration, msg, det string) string {
+	if dur == 0 && msg == "" && det == "" {
+		return fmt.Sprintf("%s|%d|%d", kit.Esc(id), int(level), unixNano)
+	}
+	return fmt.Sprintf("%s|%d|%d|%d|%s|%s", kit.Esc(id), int(level), unixNano, int64(dur), kit.Esc(msg), kit.Esc(det))
 }
 
 func list(xs []string) string {
@@ -138,7 +144,7 @@ func diskDump(st *snapStore, topics []string) string {
 		}
 		var r []string
 		for id, e := range m {
-			r = append(r, esTok(id, e.Level, e.Time.UnixNano()))
+			r = append(r, esTok(id, e.Level, e.Time.UnixNano(), e.Duration, e.Message, e.Details))
 		}
 		sort.Strings(r)
 		found[topic] = r
@@ -191,7 +197,7 @@ func memDump(as *alertservice.Service, topics []string) string {
 			if id != e.ID {
 				r = append(r, "KEYMISMATCH")
 			}
-			r = append(r, esTok(id, e.Level, e.Time.UnixNano()))
+			r = append(r, esTok(id, e.Level, e.Time.UnixNano(), e.Duration, e.Message, e.Details))
 		}
 		sort.Strings(r)
 		found[t] = r
@@ -208,7 +214,7 @@ type topicRec struct {
 
 func (h *topicRec) Handle(e alert.Event) {
 	h.mu.Lock()
-	h.got = append(h.got, esTok(e.State.ID, e.State.Level, e.State.Time.UnixNano()))
+	h.got = append(h.got, esTok(e.State.ID, e.State.Level, e.State.Time.UnixNano(), e.State.Duration, e.State.Message, e.State.Details))
 	h.mu.Unlock()
 }
 func (h *topicRec) snapshot() []string {
